@@ -77,6 +77,36 @@ def skeleton_equivalence(ctx: Ctx, rid: str) -> None:
     ctx.floor("skeletons compared across modes", n, 2000)
 
 
+def async_awaits_rule(ctx: Ctx, rid: str) -> None:
+    """(skeletons) In async mode everything a template can look up or call may be awaitable (a
+    coroutine property of the async loop context, an async data callable): every attribute /
+    item lookup, call, filter and test is emitted inside `(await auto_await(...))`.  The sync /
+    async skeleton comparison cannot see a *missing* await - erasure removes awaits - so this
+    is checked on the async skeletons themselves; a path that never consults is_async emits
+    the same code for both modes, i.e. no await."""
+    ctx.use("compiler")
+    ctx.rule(rid, "(skeletons) in async mode attribute / item lookups, calls, filters and tests are wrapped in `await auto_await(...)` on every path (plain slices excepted)")
+    res = get_paths(ctx)
+    n = 0
+    for entry in ("visit_Getattr", "visit_Getitem", "visit_Call", "visit_Filter", "visit_Test"):
+        items = res.get(entry)
+        ctx.need(items is not None, f"no emission paths for {entry}")
+        bad = None
+        for p, sk in items:
+            if p.outcome != "normal" or p.decisions.get("optimizer folds this node") is True:
+                continue
+            if entry == "visit_Getitem" and p.decisions.get("isinstance(node.arg, Slice)") is True:
+                continue
+            n += 1
+            a = p.decisions.get("self.environment.is_async")
+            if a is None or (a is True and "await auto_await(" not in sk.text):
+                bad = bad or (("never consults is_async" if a is None else "async path without await"), sk.text.strip()[:120], {k: v for k, v in list(p.decisions.items())[:5]})
+        ctx.check(bad is None, f"awaited:{entry}", f"compiler:CodeGenerator.{entry}", "async emission without `await auto_await(...)`",
+                  f"{entry} {bad[0] if bad else ''} under {bad[2] if bad else ''}: `{bad[1] if bad else ''}` - in an async environment the result may be a coroutine (`loop['length']`, an async data callable): it is rendered as `<coroutine object ...>` / always truthy and never awaited (RuntimeWarning)",
+                  "src/jinja2/compiler.py", detail={"entry": entry, "why": bad[0] if bad else None})
+    ctx.floor("async-relevant emission paths", n, 100)
+
+
 def check(ctx: Ctx) -> str:
     ctx.use("compiler", "filters", "async_utils", "environment", "runtime", "nativetypes")
     repo = ctx.repo
@@ -259,4 +289,5 @@ def check(ctx: Ctx) -> str:
     from .c22 import fresh_list_rule
 
     fresh_list_rule(ctx, "R7")
+    async_awaits_rule(ctx, "R8")
     return __doc__ or ""
